@@ -447,6 +447,8 @@ class Translator:
             self.input_types[nm] = h[2]
             if len(h) > 3 and h[3]:
                 st["events"].append('("%s", [])' % fn)
+            if h[2] == "ptr":
+                return E(nm, 0, (1 << 64) - 1, atom=True)
             lo, hi = trange(h[2])
             return E(nm, lo, hi, atom=True)
         if kind == "ptrinput":        # ("ptrinput", pathName, record_event?): returns an object pointer named pathName
@@ -807,5 +809,8 @@ def translate_kernels(ctx, relfile, specs, defines=(), cls=None):
         if sp.get("err_index"):
             out.append("/-- texts of the `m_msg_set_err` sites of `%s`, indexed by the second argument of its events -/\ndef %s_errStrings : List String := [%s]\n" % (
                 sp["name"], lname, ", ".join('"%s"' % t.replace("\\", "\\\\").replace('"', '\\"') for t in sp.get("_err_strings", []))))
+        if sp.get("_src_names"):
+            out.append("/-- sources of the `memcpy`s through the cursor of `%s`, indexed by the last argument of its `wr` events of kind 2 -/\ndef %s_srcNames : List String := [%s]\n" % (
+                sp["name"], lname, ", ".join('"%s"' % t for t in sp["_src_names"])))
         ctx.obligation("gen", "kernel %s (%s) translated (subset K)" % (sp["name"], relfile), True)
     return "\n".join(out) if allok else None
